@@ -11,14 +11,18 @@ Definition quirks_ok (q : squirks) (f : sfile) : bool :=
   && (negb (q_ts_accessor_counted q) || free_ts_accessor f)
   && (negb (q_ts_block_comment_counted q) || free_ts_block f)
   && (negb (q_rs_name_collision q) || free_rs_collision f)
-  && (negb (q_rs_block_comment_counted q) || free_rs_block f).
+  && (negb (q_rs_block_comment_counted q) || free_rs_block f)
+  && (negb (q_py_setter_counted q) || free_py_setter f)
+  && (negb (q_py_cached_property_counted q) || free_py_cached f).
 
 Definition flags_off (q : squirks) : Prop :=
   q_py_hash_in_string q = false /\ q_ts_nonpublic_counted q = false /\ q_ts_accessor_counted q = false
-  /\ q_ts_block_comment_counted q = false /\ q_rs_name_collision q = false /\ q_rs_block_comment_counted q = false.
+  /\ q_ts_block_comment_counted q = false /\ q_rs_name_collision q = false /\ q_rs_block_comment_counted q = false
+  /\ q_py_setter_counted q = false /\ q_py_cached_property_counted q = false.
 
 Definition defect_free (f : sfile) : bool :=
-  free_py_hash f && free_ts_nonpublic f && free_ts_accessor f && free_ts_block f && free_rs_collision f && free_rs_block f.
+  free_py_hash f && free_ts_nonpublic f && free_ts_accessor f && free_ts_block f && free_rs_collision f && free_rs_block f
+  && free_py_setter f && free_py_cached f.
 
 Lemma flag_or a b : negb a || b = true -> a = false \/ b = true.
 Proof. destruct a, b; cbn; intros H; try discriminate; tauto. Qed.
@@ -31,15 +35,22 @@ Lemma py_report_spec q s f :
   f_lang f = Py -> forallb (line_good Py) (f_lines f) = true ->
   forallb (cls_good Py (List.length (f_lines f))) (f_classes f) = true ->
   q_py_hash_in_string q = false \/ free_py_hash f = true ->
+  q_py_setter_counted q = false \/ free_py_setter f = true ->
+  q_py_cached_property_counted q = false \/ free_py_cached f = true ->
   py_report q (spec_conf s Py) f = flat_map (spec_class_rep s f) (f_classes f).
 Proof.
-  intros EL Hl Hc Hq. unfold py_report. rewrite filter_const_true by reflexivity.
+  intros EL Hl Hc Hq Q5 Q6.
+  assert (PL : is_lang Py f = true) by (unfold is_lang; now rewrite EL). unfold py_report. rewrite filter_const_true by reflexivity.
   apply flat_map_ext_in'. intros c Hin. pose proof (forallb_In _ _ _ Hc Hin) as Hg.
   unfold cls_good in Hg. apply andb_prop in Hg. destruct Hg as [Hg Hm]. apply andb_prop in Hg. destruct Hg as [Hg Hd].
   apply andb_prop in Hg. destruct Hg as [_ Hs]. apply Nat.eqb_eq in Hd. rewrite Hd, Nat.sub_0_r in Hs.
   unfold py_class_rep, spec_class_rep. rewrite class_rep_py, has_kw_py, EL, Hd, Nat.sub_0_r. cbn [cf_mm cf_ml cf_check cf_keywords spec_conf].
-  assert (E1 : py_count_methods c = spec_methods (c_members c)).
-  { apply filter_length_ext. intros m Hm'. apply py_countable_spec. exact (forallb_In _ _ _ Hm Hm'). }
+  assert (E1 : py_count_methods q c = spec_methods (c_members c)).
+  { apply filter_length_ext. intros m Hm'. apply py_countable_spec; [exact (forallb_In _ _ _ Hm Hm') | |].
+    - destruct Q5 as [Q5 | Q5]; [now left | right]. unfold free_py_setter in Q5. rewrite PL in Q5. cbn [negb orb] in Q5.
+      pose proof (forallb_In _ _ _ (forallb_In _ _ _ Q5 Hin) Hm') as E. now apply negb_true_iff in E.
+    - destruct Q6 as [Q6 | Q6]; [now left | right]. unfold free_py_cached in Q6. rewrite PL in Q6. cbn [negb orb] in Q6.
+      pose proof (forallb_In _ _ _ (forallb_In _ _ _ Q6 Hin) Hm') as E. now apply negb_true_iff in E. }
   assert (E2 : py_count_loc q (f_lines f) c = spec_loc (f_lines f) (c_line c) (c_len c)).
   { apply (py_count_loc_spec (f_lines f) Py Hl q c eq_refl Hs).
     destruct Hq as [Hq | Hq]; [now left | right]. unfold free_py_hash, is_lang in Hq. rewrite EL in Hq. exact Hq. }
@@ -122,9 +133,8 @@ Proof.
   intros Hg Hq. unfold quirks_ok in Hq.
   repeat (apply andb_prop in Hq; let H := fresh "Q" in destruct Hq as [Hq H]; apply flag_or in H). apply flag_or in Hq.
   unfold file_good in Hg. apply andb_prop in Hg. destruct Hg as [Hg Hu]. apply andb_prop in Hg. destruct Hg as [He Hl].
-  apply String.eqb_eq in He.
-  unfold report, report_sec. rewrite section_of_spec, He.
-  destruct (ext_dispatch (f_lang f)) as [E1 E2]. rewrite E1, E2, from_dict_spec.
+  unfold report, report_sec. rewrite section_of_spec.
+  destruct (ext_dispatch (f_lang f) (f_ext f) He) as [E1 E2]. rewrite E1, E2, from_dict_spec.
   unfold report_conf, spec_report. cbn [cf_enabled spec_conf].
   destruct (spec_enabled (spec_section c)); cbn [negb]; [|reflexivity].
   destruct (f_lang f) eqn:EL; cbn [handler_of].
@@ -139,7 +149,7 @@ Proof.
 Qed.
 
 Lemma flags_off_ok q f : flags_off q -> quirks_ok q f = true.
-Proof. intros (H1 & H2 & H3 & H4 & H5 & H6). unfold quirks_ok. now rewrite H1, H2, H3, H4, H5, H6. Qed.
+Proof. intros (H1 & H2 & H3 & H4 & H5 & H6 & H7 & H8). unfold quirks_ok. now rewrite H1, H2, H3, H4, H5, H6, H7, H8. Qed.
 
 Lemma defect_free_ok q f : defect_free f = true -> quirks_ok q f = true.
 Proof.
